@@ -292,6 +292,10 @@ func diagCases() []diagCase {
 		dc("left recursion", "through <>: A <- <A> 'x'", "A", gSeq(gPush(gN("A")), x())),
 		dc("left recursion", "nullable prefix: A <- 'x'? A", "A", gSeq(gQ(x()), gN("A"))),
 		dc("left recursion", "nullable prefix: A <- 'x'* &'y' {act} A", "A", gSeq(gStar(x()), gAnd(gC("y")), gAct(), gN("A"))),
+		dc("left recursion", "behind a predicate: A <- &{p} A 'x'", "A", gSeq(gPred(), gN("A"), x())),
+		dc("left recursion", "behind a predicate-only rule: A <- G A 'x'; G <- &{p}", "A", gSeq(gN("G"), gN("A"), x()), "G", gPred()),
+		dc("left recursion", "behind an action: A <- {act} A 'x'", "A", gSeq(gAct(), gN("A"), x())),
+		dc("left recursion", "behind an empty literal: A <- () A 'x'", "A", gSeq(gNil(), gN("A"), x())),
 		dc("left recursion", "later alternative: A <- 'x' / A 'y'", "A", gAlt(x(), gSeq(gN("A"), gC("y")))),
 		dc("left recursion", "alternative after a non-consuming one: A <- &'q' / A 'x'", "A", gAlt(gAnd(gC("q")), gSeq(gN("A"), x()))),
 		dc("left recursion", "indirect: A <- B 'x'; B <- A?", "A", gSeq(gN("B"), x()), "B", gQ(gN("A"))),
@@ -383,6 +387,32 @@ func checkC15(c *Check) {
 		_, _, lrMay := g2.diagnostics()
 		for _, n := range lrMay {
 			out[i].may = append(out[i].may, fmt.Sprintf("possible infinite left recursion in rule '%s'", n))
+		}
+		// an action is linked as a generated rule Action<N> (N in link order); when the rule holding it
+		// is unreachable the generated rule is unreachable too, and the generator may or may not say so:
+		// the statement speaks of the grammar's rules, so either is admissible
+		{
+			unused := map[string]bool{}
+			for _, n := range unu {
+				unused[n] = true
+			}
+			id := 0
+			var walk func(e *gexpr, in bool)
+			walk = func(e *gexpr, in bool) {
+				if e.Op == "act" {
+					name := fmt.Sprintf("Action%d", id)
+					id++
+					if _, user := g.rules[name]; !user && in {
+						out[i].may = append(out[i].may, fmt.Sprintf("rule '%s' defined but not used", name))
+					}
+				}
+				for _, k := range e.Kids {
+					walk(k, in)
+				}
+			}
+			for _, rl := range d.rules {
+				walk(rl.e, unused[rl.n] || len(dup) > 0)
+			}
 		}
 		for _, n := range und {
 			out[i].want = append(out[i].want, fmt.Sprintf("rule '%s' used but not defined", n))
@@ -538,7 +568,14 @@ func strictRule(c *Check, r *Repo) {
 			}
 		}
 		st := derefStruct(fa.X.Type())
-		return st != nil && st.Field(fa.Field).Name() == name
+		if st == nil {
+			return false
+		}
+		if name == "<pending warnings>" {
+			// by role: the tree's error-typed field
+			return isErrorType(st.Field(fa.Field).Type())
+		}
+		return st.Field(fa.Field).Name() == name
 	}
 	// facts along a path about (Strict, werr)
 	pathState := func(p cfgPath) (strict, werr int) { // 1 true/non-nil, -1 false/nil, 0 unknown
@@ -563,7 +600,7 @@ func strictRule(c *Check, r *Repo) {
 					strict = -1
 				}
 			}
-			if bo, ok := cond.(*ssa.BinOp); ok && (bo.Op == token.NEQ || bo.Op == token.EQL) && isField(bo.X, "werr") {
+			if bo, ok := cond.(*ssa.BinOp); ok && (bo.Op == token.NEQ || bo.Op == token.EQL) && isField(bo.X, "<pending warnings>") {
 				if k, ok := bo.Y.(*ssa.Const); ok && k.IsNil() {
 					nonnil := (bo.Op == token.NEQ) == truth
 					if nonnil {
@@ -574,6 +611,23 @@ func strictRule(c *Check, r *Repo) {
 				}
 			}
 		}
+		return
+	}
+	// the path rule reads "a warning is pending" off a comparison of the tree's error field with nil
+	// inside Compile; when the pending warnings are kept or tested in another way (a list, a helper
+	// that reports them) there is nothing for it to read and R-strict-semantics, which evaluates the
+	// statements after the emission for Strict × 0/1/2 warnings, decides the clause
+	hasTest := false
+	instrsOf(f, func(in ssa.Instruction) {
+		if bo, ok := in.(*ssa.BinOp); ok && (bo.Op == token.NEQ || bo.Op == token.EQL) && isField(bo.X, "<pending warnings>") {
+			if k, ok := bo.Y.(*ssa.Const); ok && k.IsNil() {
+				hasTest = true
+			}
+		}
+	})
+	if !hasTest {
+		c.OK("R-strict", "Compile/-strict turns warnings into failure, otherwise they are printed", r.pos(f.Pos()),
+			"does not apply: Compile does not compare an error field of the tree with nil; the clause is decided by R-strict-semantics (evaluation of the statements after the emission)")
 		return
 	}
 	var bad []string
@@ -658,9 +712,13 @@ func randomDiagCases(seed int64, n int) []diagCase {
 	var gen func(depth int, names []string) *gexpr
 	gen = func(depth int, names []string) *gexpr {
 		if depth == 0 || rng.Intn(4) == 0 {
-			switch rng.Intn(8) {
+			switch rng.Intn(10) {
 			case 0, 1, 2:
 				return gN(names[rng.Intn(len(names))])
+			case 8:
+				return gPred()
+			case 9:
+				return gAct()
 			case 3:
 				return gC("x")
 			case 4:
